@@ -2353,6 +2353,8 @@ impl Node {
                 state.fee_velocity_control.limit
             );
         }
+        // the fee was counted against the fee velocity limit, make that durable
+        self.persister.update_node(&self.get_id(), &*state).expect("node persistence failure");
 
         Ok(())
     }
